@@ -1787,7 +1787,7 @@ impl Evaluator {
         }
         let mut product_vec = vec![];
         let mut i = 0;
-        while i < operands.len() {
+        while i + 1 < operands.len() {
             let mut product = Ciphertext::new();
             self.multiply(&operands[i], &operands[i + 1], &mut product);
             self.relinearize_inplace(&mut product, relin_keys);
@@ -1797,12 +1797,13 @@ impl Evaluator {
         if operands.len() % 2 == 1 {
             product_vec.push(operands[operands.len() - 1].clone());
         }
+        // multiply pairs and append the products until a single unconsumed entry, the total product, is left
         i = 0;
-        while i < product_vec.len() - 1 {
+        while i + 1 < product_vec.len() {
             let mut product = Ciphertext::new();
             self.multiply(&product_vec[i], &product_vec[i + 1], &mut product);
             self.relinearize_inplace(&mut product, relin_keys);
-            product_vec[i] = product;
+            product_vec.push(product);
             i += 2;
         }
         *destination = product_vec[product_vec.len() - 1].clone();
